@@ -77,6 +77,9 @@ def workflows():
     add('observer-2subj', [comp('A'), comp('S1'), comp('S2', ['A:ref']), obs('Obs', ['S1:ref', 'S2:ref'])],
         {'stage0.A': m(), 'stage0.S1': m(), 'stage0.S2': m(producers=['stage0.A']),
          'stage0.Obs': m(producers=['stage0.S1', 'stage0.S2'], repeat=True)})
+    add('observer-2subj-rev', [comp('A'), comp('S1'), comp('S2', ['A:ref']), obs('Obs', ['S2:ref', 'S1:ref'])],
+        {'stage0.A': m(), 'stage0.S1': m(), 'stage0.S2': m(producers=['stage0.A']),
+         'stage0.Obs': m(producers=['stage0.S1', 'stage0.S2'], repeat=True)})
     add('xobs-mixed', [comp('P'), comp('S', stage=1), obs('Obs', ['stage0.P:ref', 'S:ref'], stage=1)],
         {'stage0.P': m(), 'stage1.S': m(1), 'stage1.Obs': m(1, ['stage0.P', 'stage1.S'], repeat=True)})
     add('xreplica-agg', [comp('S', wa={'replicate': 2}), comp('Agg', ['stage0.S:ref'], stage=1, wa={'aggregate': True}),
